@@ -178,13 +178,52 @@ static int family_bounds(int shard, int nshards)
         return 0;
 }
 
+/* digit counts around 2^8 and 2^16 (and their multiples): well-formed, in-range values with that many digits */
+static int family_huge(int shard, int nshards)
+{
+        static const int COUNTS[] = {254, 255, 256, 257, 511, 512, 513, 65534, 65535, 65536, 65537, 131072};
+        int idx = 0;
+        static uint8_t line[140000];
+        for (int ti = 0; ti < 3; ti++)
+                for (int ci = 0; ci < 12; ci++)
+                        for (int pos = 0; pos < 2; pos++, idx++) {
+                                if (idx % nshards != shard) continue;
+                                int n = COUNTS[ci];
+                                struct wcmd *c = sw_table(1);
+                                strcpy(c[0].name, "+N");
+                                c[0].hmask = HM_W; c[0].nvar = 2;
+                                for (int i = 0; i < 2; i++) setvar(&c[0].var[i], i == pos ? TYPES[ti] : CAT_VAR_UINT_DEC, i == pos ? 2 : 1, CAT_VAR_ACCESS_READ_WRITE);
+                                sw_caps(n + 64, 0);
+                                W.line_max = n + 128;
+                                W.mon = P_ALL;
+                                world_build();
+                                snprintf(SW.extra, sizeof SW.extra, "family=huge type=%c digits=%d pos=%d", TCH[ti], n, pos);
+                                for (int lastd = 0; lastd < 2; lastd++) {
+                                        int k = 0;
+                                        memcpy(line, "AT+N=", 5); k = 5;
+                                        if (pos == 1) { line[k++] = '7'; line[k++] = ','; }
+                                        if (TYPES[ti] == CAT_VAR_NUM_HEX) { line[k++] = '0'; line[k++] = 'x'; }
+                                        else if (TYPES[ti] == CAT_VAR_INT_DEC && lastd) line[k++] = '-';
+                                        for (int i = 0; i < n - 1; i++) line[k++] = '0';
+                                        line[k++] = lastd ? '9' : '0';
+                                        if (pos == 0) { line[k++] = ','; line[k++] = '7'; }
+                                        line[k++] = '\n';
+                                        SW.cases++;
+                                        if (sw_line(line, k)) return 1;
+                                }
+                                if (sw_expired()) return 0;
+                        }
+        return 0;
+}
+
 int main(int argc, char **argv)
 {
         sw_init(argc, argv, "numeric");
         const char *fam = sw_args(argc, argv, "--family", "all");
         int maxlen = sw_argi(argc, argv, "--maxlen", 4);
         int r;
-        if (!strcmp(fam, "all")) r = family_all(maxlen, SW.shard, SW.nshards);
+        if (!strcmp(fam, "huge")) r = family_huge(SW.shard, SW.nshards);
+        else if (!strcmp(fam, "all")) r = family_all(maxlen, SW.shard, SW.nshards);
         else r = family_bounds(SW.shard, SW.nshards);
         (void)r;
         char tag[64];
